@@ -47,6 +47,7 @@ type cell struct {
 	Linit      string   `json:"linit,omitempty"`
 	Rinit      string   `json:"rinit,omitempty"`
 	Pos        int      `json:"pos,omitempty"`
+	Ptype      string   `json:"ptype,omitempty"`
 	Name       string   `json:"name,omitempty"`
 	Access     string   `json:"access,omitempty"`
 	Get        string   `json:"get,omitempty"`
@@ -56,6 +57,8 @@ type cell struct {
 	Ret        string   `json:"ret,omitempty"`
 	Extra      string   `json:"extra,omitempty"`
 	Why        string   `json:"why,omitempty"`
+	How        string   `json:"how,omitempty"`
+	Base       string   `json:"base,omitempty"`
 	Stmt       string   `json:"stmt,omitempty"`
 	Action     string   `json:"action,omitempty"`
 	Scopes     []string `json:"scopes,omitempty"`
@@ -340,8 +343,11 @@ func render(c *cell) program {
 		} else {
 			body = append(body, fmt.Sprintf("if (%s %s %s) { set req.http.Z = \"1\"; }", l, c.Op, r))
 		}
-	case "var":
+	case "var", "dyn":
 		n := concreteVar(c.Name)
+		if c.Kind == "dyn" && c.How == "undeclared" {
+			n = strings.Replace(c.Name, "%any%", "nosuch", 1)
+		}
 		switch c.Access {
 		case "get":
 			t := c.Get
@@ -493,6 +499,9 @@ var simKinds = []struct {
 	{"type", regexp.MustCompile(`(?i)invalid assignment|could not assign|invalid (addition|subtraction|multiplication|division|remainder|bitwise|logical|shift|rotate|operator)|invalid type|type mismatch|unexpected type|could not (compare|convert|cast)|comparison|cannot (assign|convert|compare|use)|incompatible|unsupported type|invalid .* type|not supported|could not be|literal`)},
 }
 
+// refusals that depend on the value an operand happens to hold, not on its type or name
+var valueDependent = regexp.MustCompile(`(?i)failed to parse IP from string|invalid IP format|division by zero|divide by zero|out of range|shift|rotate`)
+
 func classify(msg string) string {
 	for _, k := range simKinds {
 		if k.re.MatchString(msg) {
@@ -576,6 +585,8 @@ func cellID(c *cell) string {
 		return fmt.Sprintf("%s:%s[%s] %s %s/%s[%s]", c.Kind, c.Lt, c.Linit, c.Op, c.Rt, c.Form, c.Rinit)
 	case "var":
 		return fmt.Sprintf("var:%s/%s@%s", c.Name, c.Access, strings.Join(c.Scopes, "+"))
+	case "dyn":
+		return fmt.Sprintf("dyn:%s:%s@%s", c.How, c.Name, strings.Join(c.Scopes, "+"))
 	case "fn":
 		return fmt.Sprintf("fn:%s(%s)@%s", c.Name, strings.Join(c.Sig, ","), strings.Join(c.Scopes, "+"))
 	case "fnsig":
@@ -595,12 +606,14 @@ func classOf(c *cell) map[string]any {
 		m["op"], m["lt"], m["rt"], m["form"], m["linit"], m["rinit"] = c.Op, c.Lt, c.Rt, c.Form, c.Linit, c.Rinit
 	case "var":
 		m["name"], m["access"] = c.Name, c.Access
+	case "dyn":
+		m["name"], m["how"] = c.Name, c.How
 	case "fn":
 		m["name"] = c.Name
 	case "fnsig":
 		m["name"], m["why"] = c.Name, c.Why
 	case "fnconv":
-		m["name"], m["rt"], m["form"] = c.Name, c.Rt, c.Form
+		m["name"], m["rt"], m["form"], m["ptype"] = c.Name, c.Rt, c.Form, c.Ptype
 	case "stmt":
 		m["stmt"] = c.Stmt
 		if c.Action != "" {
@@ -649,6 +662,14 @@ func evalCell(b *behaviour) *hx.CaseResult {
 			case "type", "undefined", "scope", "args", "crash":
 				res.Mismatch = append(res.Mismatch, map[string]any{"obs": "sim", "simkind": so.Outcome, "scope": sc, "message": so.Message})
 				obs.Program = p.Src
+			case "other":
+				// a cell that passes no argument to a built-in has nothing value-dependent about it, apart from the
+				// few messages listed in valueDependent: any other refusal of the simulator is a failure to execute
+				// what the linter accepted (an unknown suffix, a state it lacks ...)
+				if c.Kind != "fn" && c.Kind != "fnsig" && c.Kind != "fnconv" && !valueDependent.MatchString(so.Message) {
+					res.Mismatch = append(res.Mismatch, map[string]any{"obs": "sim", "simkind": "error", "scope": sc, "message": so.Message})
+					obs.Program = p.Src
+				}
 			default:
 				// "other" / "hang": a failure the property does not speak about (a value the built-in rejects, a
 				// state the test interpreter does not have, a run that does not end - C08): kept in the
